@@ -59,7 +59,7 @@ def _write_if_changed(path, content):
         f.write(content)
 
 
-def ensure(release=False, log=print):
+def ensure(release=False, log=print, std=False):
     """returns dict of artefact paths; raises BuildError if /repo does not build"""
     os.makedirs(WORK, exist_ok=True)
     lock = open(os.path.join(WORK, '.lock'), 'w')
@@ -72,6 +72,8 @@ def ensure(release=False, log=print):
             'mir_vdev': os.path.join(WORK, 'mir_vdev.txt'),
             'vreplay': os.path.join(WORK, 'tgt-stable', 'debug', 'vreplay'),
             'vreplay_release': os.path.join(WORK, 'tgt-stable', 'release', 'vreplay'),
+            'mir_micro_std': os.path.join(WORK, 'mir_micro_std.txt'),
+            'vreplay_std': os.path.join(WORK, 'tgt-stable-std', 'debug', 'vreplay'),
             'key': key,
             'timings': {},
         }
@@ -121,6 +123,15 @@ def ensure(release=False, log=print):
             log(f'[build] regenerated artefacts from {REPO} in {sum(t.values()):.1f}s (key {key[:12]})')
         else:
             log(f'[build] artefacts up to date for tree {key[:12]}')
+        if std and not (os.path.exists(paths['mir_micro_std']) and os.path.exists(paths['vreplay_std']) and os.path.exists(stamp + '.std') and open(stamp + '.std').read() == key):
+            vdev = os.path.join(WORK, 'vdev')
+            paths['timings']['mir_micro_std_s'] = _run(['cargo', '+nightly', 'rustc', '--offline', '--lib', '--features', 'std', '--', '-Zunpretty=mir', '-C', 'debug-assertions=off',
+                                                        '-C', 'overflow-checks=on', '--cfg', 'verif_key="%s"' % key[:16], '-A', 'warnings'],
+                                                       os.path.join(REPO, 'microscpi'), paths['mir_micro_std'] + '.tmp', 'MIR dump of microscpi with the std feature')
+            os.replace(paths['mir_micro_std'] + '.tmp', paths['mir_micro_std'])
+            paths['timings']['vreplay_std_s'] = _run(['cargo', 'build', '--offline', '--bin', 'vreplay', '--features', 'stdw'], vdev, None, 'build of the std-writer replay binary', target='tgt-stable-std')
+            with open(stamp + '.std', 'w') as f:
+                f.write(key)
         if release and not (os.path.exists(paths['vreplay_release']) and os.path.exists(stamp + '.release') and open(stamp + '.release').read() == key):
             vdev = os.path.join(WORK, 'vdev')
             paths['timings']['vreplay_release_s'] = _run(['cargo', 'build', '--offline', '--release', '--bin', 'vreplay'], vdev, None, 'release build of vreplay')
@@ -133,9 +144,9 @@ def ensure(release=False, log=print):
 
 
 # cargo target dirs: keep nightly and stable apart, both outside /repo
-def _run(cmd, cwd, out=None, what=''):
+def _run(cmd, cwd, out=None, what='', target=None):
     env = dict(ENV)
-    env['CARGO_TARGET_DIR'] = os.path.join(WORK, 'tgt-nightly' if '+nightly' in cmd else 'tgt-stable')
+    env['CARGO_TARGET_DIR'] = os.path.join(WORK, target or ('tgt-nightly' if '+nightly' in cmd else 'tgt-stable'))
     t0 = time.time()
     p = subprocess.run(cmd, cwd=cwd, env=env, stdout=open(out, 'w') if out else subprocess.PIPE, stderr=subprocess.PIPE, text=True)
     if p.returncode != 0:
@@ -146,7 +157,7 @@ def _run(cmd, cwd, out=None, what=''):
 
 if __name__ == '__main__':
     try:
-        p = ensure(release='--release' in sys.argv)
+        p = ensure(release='--release' in sys.argv, std='--std' in sys.argv)
         print(p)
     except BuildError as e:
         print('BUILD FAILED:', e)
